@@ -170,6 +170,7 @@ func (fv *FnVerifier) execInstr(in ssa.Instruction, st *State) {
 			fv.storePtr(st, r, t, fv.zeroOf(t))
 		}
 		fv.env[x] = Val{T: x.Type(), S: r}
+		fv.promoteAlloc(x, r)
 	case *ssa.FieldAddr:
 		base := fv.value(x.X, st)
 		pt := x.X.Type().Underlying().(*types.Pointer).Elem()
@@ -247,6 +248,7 @@ func (fv *FnVerifier) execInstr(in ssa.Instruction, st *State) {
 			fv.nilCheck(a.S, fv.exprText(x.Addr), x.Pos(), x.Addr)
 			fv.frameCheckRef(st, a.S, pt, x.Pos())
 			fv.storePtr(st, a.S, pt, vs)
+			fv.promoStore(a.S, v)
 		}
 	case *ssa.BinOp:
 		fv.execBinOp(x, st)
@@ -408,6 +410,10 @@ func (fv *FnVerifier) execUnOp(x *ssa.UnOp, st *State) {
 				fv.sentinelError(st, v.Addr.Arr)
 			}
 			fv.env[x] = r
+			return
+		}
+		if pv, ok := fv.promoLoad(v.S); ok {
+			fv.env[x] = pv
 			return
 		}
 		fv.nilCheck(v.S, fv.exprText(x.X), x.Pos(), x.X)
